@@ -29,6 +29,9 @@ def run(tier, seed, replay_rows=None):
     vlib.require_tlc_ok(a, "MC_Verdict")
     ck.add_tlc("MC_Verdict", a)
     ck.exhaustive = True
+    # unbounded: the ten design theorems for ALL counts in Nat, any max-failures, every rate 0..100 (Apalache/Z3);
+    # the mutant (>= instead of > in the share comparison) must be refuted
+    vlib.apalache_theorems(ck, "VerdictInd", mutant="VerdictIndMut")
     binary = vlib.build_harness()
     with vlib.Scratch("verif-c08-") as d:
         if replay_rows is None:
